@@ -859,6 +859,12 @@ func coAssigned(r *Report, rule string, primary *types.Var, partners []*types.Va
 			for _, pv := range partners {
 				key := fmt.Sprintf("%s/store(%s)-then-store(%s)", fname(f), primary.Name(), pv.Name())
 				exits := exitsAvoiding(st, func(i ssa.Instruction) bool { return storesFieldOrCallsSetter(i, pv, 0) }, false)
+				if len(exits) > 0 {
+					// the partner was reassigned first, in the same function (t.infoBitmap = nil; …; t.Info = make(…))
+					if anyInstr(f, func(i ssa.Instruction) bool { return storesFieldOrCallsSetter(i, pv, 0) && instrDominates(i, st) }) != nil {
+						exits = nil
+					}
+				}
 				if len(exits) == 0 {
 					r.Ok(rule, key, st.Pos(), "%s is reassigned together with %s on every path", pv.Name(), primary.Name())
 				} else {
